@@ -440,6 +440,23 @@ theorem C14_url_target (scheme netloc path : Str) :
     unfold urlTarget urlPath
     rw [if_pos ⟨h1, h2⟩, h1]
 
+/-- **C14_plain_path_whole**: a source given without a scheme is a local path and denotes itself - the reader is made for the
+whole string (`getReadersFromUrls` hands the string over as it stands: nothing is cut off it at `#`, `?` or `;`, no `%`-escape
+is resolved), and it is an archive reader exactly when the string ends in `.zip` / `.ZIP`. -/
+theorem C14_plain_path_whole (netloc src : Str) :
+    urlTarget [] netloc src =
+      (if endsWith src ".zip".toList || endsWith src ".ZIP".toList then Kind.zip else Kind.file, src) := by
+  have h : urlPath [] netloc src = src := by
+    unfold urlPath
+    rw [if_neg (fun hh => by simp at hh)]
+  unfold urlTarget
+  rw [h]
+  unfold urlKind
+  simp
+
+example : urlTarget [] [] "/tmp/mibs#2".toList = (.file, "/tmp/mibs#2".toList) := by decide
+example : urlTarget [] [] "/data/a#b.zip".toList = (.zip, "/data/a#b.zip".toList) := by decide
+
 /-- the example of the documentation -/
 example : urlTarget "zip".toList "mymibs.zip".toList [] = (.zip, "mymibs.zip".toList) := by decide
 example : urlTarget "file".toList "host".toList "/mibs".toList = (.file, "/mibs".toList) := by decide
